@@ -352,12 +352,13 @@ Definition py_int (s0 : string) : option Z :=
   | EmptyString => None
   end.
 
-(* PeriodicTable.isotope: the parsing of '#-Sym' or 'Sym' into (isotope, symbol) ... *)
-Definition parse_iso_string (input : string) : Z * string :=
+(* PeriodicTable.isotope: the parsing of '#-Sym' or 'Sym' into (isotope, symbol); the isotope is
+   None when the string has no '-' ... *)
+Definition parse_iso_string (input : string) : option Z * string :=
   match split_char "-"%char input with
-  | [p0] => (0%Z, p0)
-  | [p0; p1] => (match py_int p0 with Some v => v | None => (-1)%Z end, p1)
-  | _ => ((-1)%Z, "")
+  | [p0] => (None, p0)
+  | [p0; p1] => (Some (match py_int p0 with Some v => v | None => (-1)%Z end), p1)
+  | _ => (Some (-1)%Z, "")
   end.
 
 (* ... and the lookup *)
@@ -367,12 +368,15 @@ Definition by_iso_string (s : state) (T : tabid) (input : string) : r1 :=
   | Some attr =>
       match hget s attr with
       | Some (OElement _ _ _ _ _) =>
-          if Z.eqb isotope 0 then Ok attr
-          else match get2 (isos s) attr isotope with     (* isotope in attr.isotopes; attr[isotope] *)
-               | Some o => Ok o
-               | None => Er ValueErr
-               end
-      | Some (OIsotope _ _) => if Z.eqb isotope 0 then Ok attr else Er ValueErr
+          match isotope with
+          | None => Ok attr                                (* if isotope is None: return attr *)
+          | Some a =>
+              match get2 (isos s) attr a with              (* isotope in attr.isotopes; attr[isotope] *)
+              | Some o => Ok o
+              | None => Er ValueErr
+              end
+          end
+      | Some (OIsotope _ _) => match isotope with None => Ok attr | Some _ => Er ValueErr end
       | _ => Er ValueErr
       end
   | None => Er ValueErr
